@@ -59,6 +59,7 @@ def run(ctx):
         return False
 
     writers = {"buf": set(), "signing_key": set()}
+    ctors = set()
     for fn in P.fns.values():
         if fn.derived:
             continue
@@ -75,11 +76,17 @@ def run(ctx):
                                 if isinstance(e, dict) and e.get("adt") == S and e.get("name") in writers:
                                     writers[e["name"]].add(fn.path)
                     if st["rv"]["k"] == "agg" and st["rv"].get("adt") == S:
-                        writers["buf"].add(fn.path)
-                        writers["signing_key"].add(fn.path)
-    ctx.check("buffer-discipline", "who-writes-buf", writers["buf"] == {S + "::from_seed", S + "::update", S + "::sign"},
-              "buf is written only by from_seed, update, sign", "buf is written by %s" % sorted(writers["buf"]))
-    ctx.check("buffer-discipline", "who-writes-signing_key", writers["signing_key"] == {S + "::from_seed"}, "signing_key is set only by from_seed",
+                        ctors.add(fn.path)
+    # constructors (from_seed; `new`, when it builds the value itself from a random key instead of going through from_seed) start with an empty buffer
+    empty = True
+    for (cfn_, cbb, cidx, cfields) in W.ctor_fields(S):
+        b0 = values.strip_payload(W.expand(cfields.get("buf"))) if cfields.get("buf") is not None else None
+        if not (is_call(b0) and callee_name(b0[1]) in ("with_capacity", "new") and "Vec" in b0[1]):
+            empty = False
+    ctx.check("buffer-discipline", "who-writes-buf", writers["buf"] <= {S + "::update", S + "::sign"} and (S + "::from_seed") in ctors and ctors <= {S + "::from_seed", S + "::new"} and empty,
+              "buf is written only by update and sign; constructors (%s) start with an empty buffer" % sorted(c.split("::")[-1] for c in ctors),
+              "buf is written by %s, constructed in %s (empty at construction: %s)" % (sorted(writers["buf"]), sorted(ctors), empty))
+    ctx.check("buffer-discipline", "who-writes-signing_key", not writers["signing_key"], "signing_key is set only when a MsgSigner is constructed",
               "signing_key is written by %s" % sorted(writers["signing_key"]))
     # update
     up = ctx.fn(S + "::update")
